@@ -1,6 +1,6 @@
 (* C14 -- lemmas about Model/Ens.v: the rectangularity invariant over every operation and history, the lens
    laws of the Conformer view, the iteration theorems, dump / io round trip of rectangular ensembles. *)
-From Coq Require Import List Bool Arith ZArith Lia.
+From Coq Require Import List Bool Arith ZArith Lia ZifyBool.
 Import ListNotations.
 From Molli Require Import Model.Ens.
 
@@ -442,4 +442,440 @@ Proof.
     destruct (c <? nc e) eqn:E2; inversion H; subst.
     + apply Nat.ltb_lt in E2. eapply SS_iter_yield; eauto.
     + apply Nat.ltb_ge in E2. eapply SS_iter_stop; eauto.
+Qed.
+
+(* ------------------------------------------------------------------ Rect over steps and histories *)
+Lemma StoreRect_push W e : StoreRect W -> Rect e -> StoreRect (push_ens W e).
+Proof. unfold StoreRect, push_ens; simpl. intros H He. apply Forall_app; split; auto. Qed.
+
+Lemma StoreRect_set W i e : StoreRect W -> Rect e -> StoreRect (set_ens W i e).
+Proof. unfold StoreRect, set_ens; simpl. intros H He. apply Forall_set_nth; auto. Qed.
+
+Lemma Rect_src_rect W o e : StoreRect W -> Rect_src W o e -> Rect e.
+Proof.
+  intros HW [src k a xc xq xw _ H | i e0 _ _ H].
+  - eapply init_rect; eauto.
+  - eapply ser_roundtrip_rect; eauto.
+Qed.
+
+Theorem step_rect W o W' w : StoreRect W -> step W o = Ok W' w -> StoreRect W'.
+Proof.
+  intros HW H. apply step_ok_inv in H.
+  destruct H as [e -> _ Hs | i _ _ -> _ | t i c e _ _ _ _ -> _ | t i c e _ _ _ _ -> _ | i f e e' Ho He Hf -> _ | i f e _ _ _ _ ->]; auto.
+  - apply StoreRect_push; auto. eapply Rect_src_rect; eauto.
+  - apply StoreRect_set; auto. eapply ens_fun_rect; eauto. eapply StoreRect_nth; eauto.
+Qed.
+
+Lemma StoreRect_empty : StoreRect empty_store.
+Proof. constructor. Qed.
+
+Theorem run_rect h : forall W W', StoreRect W -> run W h = Some W' -> StoreRect W'.
+Proof.
+  induction h as [|o r IH]; intros W W' HW H; simpl in H.
+  - inversion H; subst; auto.
+  - destruct (step W o) as [W1 w| |] eqn:E; try discriminate.
+    + eapply IH; [|eauto]. eapply step_rect; eauto.
+    + eapply IH; eauto.
+Qed.
+
+(* every correspondence case the kernel accepts is a run of the model from the empty store, hence ends in a
+   rectangular store *)
+Lemma run_check_sound steps : forall W, run_check W steps = true -> StoreRect W ->
+  exists W', run W (map fst steps) = Some W' /\ StoreRect W'.
+Proof.
+  induction steps as [|[o ob] r IH]; intros W H HW; simpl in *.
+  - eauto.
+  - destruct (step W o) as [W1 w| |] eqn:E; try discriminate.
+    + rewrite !andb_true_iff in H. destruct H as [_ H]. apply IH; auto. eapply step_rect; eauto.
+    + rewrite !andb_true_iff in H. destruct H as [_ H]. apply IH; auto.
+Qed.
+
+Theorem check_case_sound c : check_case c = true ->
+  exists W', run empty_store (map fst c) = Some W' /\ StoreRect W'.
+Proof. intros H. apply run_check_sound; auto. apply StoreRect_empty. Qed.
+
+(* ------------------------------------------------------------------ the Conformer view is a lens *)
+Lemma with_coords_id e : with_coords e (coords e) = e.
+Proof. destruct e; reflexivity. Qed.
+Lemma with_charges_id e : with_charges e (charges e) = e.
+Proof. destruct e; reflexivity. Qed.
+
+Theorem lens_coords_get_set k v e e' : c_set_coords k v e = Some e' -> c_get_coords k e' = Some v.
+Proof.
+  unfold c_set_coords, c_get_coords. destruct (length v =? na e); [|discriminate].
+  destruct (upd_row k _ (coords e)) as [cs|] eqn:E; intros H; inversion H; subst; simpl.
+  apply upd_row_get_same in E as (r & _ & E). exact E.
+Qed.
+
+Theorem lens_coords_other k k' v e e' : c_set_coords k v e = Some e' ->
+  py_index (nc e) k' <> py_index (nc e) k -> c_get_coords k' e' = c_get_coords k' e.
+Proof.
+  unfold c_set_coords, c_get_coords, nc. destruct (length v =? na e); [|discriminate].
+  destruct (upd_row k _ (coords e)) as [cs|] eqn:E; intros H Hne; inversion H; subst; simpl.
+  eapply upd_row_get_other; eauto.
+Qed.
+
+Theorem lens_coords_frame k v e e' : c_set_coords k v e = Some e' ->
+  na e' = na e /\ nc e' = nc e /\ charges e' = charges e /\ weights e' = weights e.
+Proof. unfold c_set_coords. destruct (length v =? na e); [|discriminate]. apply upd_coords_frame. Qed.
+
+Theorem lens_coords_set_get k v e : Rect e -> c_get_coords k e = Some v -> c_set_coords k v e = Some e.
+Proof.
+  intros (_ & _ & H3 & _) H. unfold c_get_coords in H. apply get_row_spec in H as (j & E1 & E2).
+  unfold c_set_coords.
+  assert (L : length v = na e). { rewrite Forall_forall in H3. apply H3. eapply nth_error_In; eauto. }
+  rewrite L, Nat.eqb_refl.
+  rewrite (upd_row_some k (fun _ => Some v) (coords e) j v v E1 E2 eq_refl). simpl.
+  rewrite (set_nth_same j v (coords e) E2). f_equal. apply with_coords_id.
+Qed.
+
+Theorem lens_charges_get_set k v e e' : c_set_charges k v e = Some e' -> c_get_charges k e' = Some v.
+Proof.
+  unfold c_set_charges, c_get_charges. destruct (length v =? na e); [|discriminate].
+  destruct (upd_row k _ (charges e)) as [cs|] eqn:E; intros H; inversion H; subst; simpl.
+  apply upd_row_get_same in E as (r & _ & E). exact E.
+Qed.
+
+Theorem lens_charges_other k k' v e e' : c_set_charges k v e = Some e' ->
+  py_index (length (charges e)) k' <> py_index (length (charges e)) k -> c_get_charges k' e' = c_get_charges k' e.
+Proof.
+  unfold c_set_charges, c_get_charges. destruct (length v =? na e); [|discriminate].
+  destruct (upd_row k _ (charges e)) as [cs|] eqn:E; intros H Hne; inversion H; subst; simpl.
+  eapply upd_row_get_other; eauto.
+Qed.
+
+Theorem lens_charges_frame k v e e' : c_set_charges k v e = Some e' ->
+  na e' = na e /\ nc e' = nc e /\ coords e' = coords e /\ weights e' = weights e.
+Proof. unfold c_set_charges. destruct (length v =? na e); [|discriminate]. apply upd_charges_frame. Qed.
+
+Theorem lens_charges_set_get k v e : Rect e -> c_get_charges k e = Some v -> c_set_charges k v e = Some e.
+Proof.
+  intros (_ & _ & _ & H4) H. unfold c_get_charges in H. apply get_row_spec in H as (j & E1 & E2).
+  unfold c_set_charges.
+  assert (L : length v = na e). { rewrite Forall_forall in H4. apply H4. eapply nth_error_In; eauto. }
+  rewrite L, Nat.eqb_refl.
+  rewrite (upd_row_some k (fun _ => Some v) (charges e) j v v E1 E2 eq_refl). simpl.
+  rewrite (set_nth_same j v (charges e) E2). f_equal. apply with_charges_id.
+Qed.
+
+(* EVERY write through a conformer (whole row, one element, scale / translate / transform of the view) touches
+   row k of ONE array of ONE ensemble *)
+Definition conf_write (o : op) : option (nat * Z) :=
+  match o with
+  | ConfSetCoords i k _ | ConfSetCoordElem i k _ _ | ConfSetCharges i k _ | ConfSetChargeElem i k _ _
+  | ConfScale i k _ | ConfTranslate i k _ | ConfTransform i k _ => Some (i, k)
+  | _ => None
+  end.
+
+Definition row_frame (k : Z) (e e' : ens) : Prop :=
+  na e' = na e /\ nc e' = nc e /\ weights e' = weights e /\
+  forall k', py_index (nc e) k' <> py_index (nc e) k ->
+    c_get_coords k' e' = c_get_coords k' e /\ c_get_charges k' e' = c_get_charges k' e.
+
+Lemma upd_coords_row_frame k f e e' :
+  option_map (with_coords e) (upd_row k f (coords e)) = Some e' -> row_frame k e e'.
+Proof.
+  intros H. pose proof (upd_coords_frame _ _ _ _ H) as (F1 & F2 & F3 & F4).
+  unfold row_frame. repeat split; auto.
+  - destruct (upd_row k f (coords e)) as [cs|] eqn:E; inversion H; subst.
+    unfold c_get_coords; simpl. eapply upd_row_get_other; eauto.
+  - unfold c_get_charges. rewrite F3. reflexivity.
+Qed.
+
+Lemma upd_charges_row_frame k f e e' : Rect e ->
+  option_map (with_charges e) (upd_row k f (charges e)) = Some e' -> row_frame k e e'.
+Proof.
+  intros (R1 & _) H. pose proof (upd_charges_frame _ _ _ _ H) as (F1 & F2 & F3 & F4).
+  unfold row_frame. repeat split; auto.
+  - unfold c_get_coords. rewrite F3. reflexivity.
+  - destruct (upd_row k f (charges e)) as [cs|] eqn:E; inversion H; subst.
+    unfold c_get_charges; simpl. eapply upd_row_get_other; eauto. unfold nc in *. rewrite R1. auto.
+Qed.
+
+Lemma conf_write_aux W o e e' : Rect e ->
+  match conf_write o, ens_fun W o with
+  | Some (i, k), Some (i', f) => i' = i /\ (f e = Some e' -> row_frame k e e')
+  | Some _, None => False
+  | None, _ => True
+  end.
+Proof.
+  intros He. destruct o; cbn [conf_write ens_fun]; auto; split; auto; intros Hf.
+  - unfold c_set_coords in Hf. destruct (_ =? _); [|discriminate]. eapply upd_coords_row_frame; eauto.
+  - unfold c_set_coord_elem in Hf. eapply upd_coords_row_frame; eauto.
+  - unfold c_set_charges in Hf. destruct (_ =? _); [|discriminate]. eapply upd_charges_row_frame; eauto.
+  - unfold c_set_charge_elem in Hf. eapply upd_charges_row_frame; eauto.
+  - destruct (scale_ok _ false); [|discriminate]. unfold c_map in Hf. eapply upd_coords_row_frame; eauto.
+  - unfold c_map in Hf. eapply upd_coords_row_frame; eauto.
+  - unfold c_map in Hf. eapply upd_coords_row_frame; eauto.
+Qed.
+
+Theorem conf_write_frame W o i k W' w : StoreRect W -> conf_write o = Some (i, k) -> step W o = Ok W' w ->
+  iters W' = iters W /\ length (enss W') = length (enss W) /\
+  (forall j, j <> i -> nth_error (enss W') j = nth_error (enss W) j) /\
+  exists e e', nth_error (enss W) i = Some e /\ nth_error (enss W') i = Some e' /\ row_frame k e e'.
+Proof.
+  intros HW Hc H. apply step_ok_inv in H.
+  destruct H as [e -> _ Hs | i0 Ho _ _ _ | t i0 c e Ho _ _ _ _ _ | t i0 c e Ho _ _ _ _ _ | i0 f e e' Ho He Hf -> _ | i0 f e Ho _ He _ _].
+  - destruct Hs; subst; discriminate.
+  - subst; discriminate.
+  - subst; discriminate.
+  - subst; discriminate.
+  - pose proof (conf_write_aux W o e e' (StoreRect_nth _ _ _ HW He)) as A. rewrite Hc, Ho in A. destruct A as [-> A].
+    unfold set_ens; simpl. rewrite set_nth_length. repeat split; auto.
+    + intros j Hj. apply nth_error_set_nth_neq; auto.
+    + exists e, e'. split; [exact He|]. split; [|exact (A Hf)].
+      apply nth_error_set_nth_eq. apply nth_error_Some. congruence.
+  - pose proof (conf_write_aux W o e e (StoreRect_nth _ _ _ HW He)) as A. rewrite Hc, Ho in A. destruct A.
+Qed.
+
+(* ------------------------------------------------------------------ iteration *)
+Lemma drain_seq fuel : forall cur len, len - cur <= fuel -> drain fuel cur len = seq cur (len - cur).
+Proof.
+  induction fuel as [|f IH]; intros cur len H; simpl.
+  - replace (len - cur) with 0 by lia. reflexivity.
+  - destruct (cur <? len) eqn:E.
+    + apply Nat.ltb_lt in E. rewrite IH by lia. replace (len - cur) with (S (len - S cur)) by lia. reflexivity.
+    + apply Nat.ltb_ge in E. replace (len - cur) with 0 by lia. reflexivity.
+Qed.
+
+Theorem for_ids_seq len : for_ids len = seq 0 len.
+Proof. unfold for_ids. rewrite drain_seq by lia. f_equal. lia. Qed.
+
+Lemma flat_map_prod {A B} (l : list A) (l' : list B) : flat_map (fun a => map (pair a) l') l = list_prod l l'.
+Proof. induction l as [|x l IH]; simpl; auto. rewrite IH. reflexivity. Qed.
+
+Theorem nested_ids_prod len : nested_ids len = list_prod (seq 0 len) (seq 0 len).
+Proof. unfold nested_ids. rewrite for_ids_seq. apply flat_map_prod. Qed.
+
+(* the protocol before the repair (one cursor on the ensemble): the inner loop runs the shared cursor to the end *)
+Lemma shared_inner_spec fuel : forall cur len a acc, len - cur <= fuel ->
+  shared_inner fuel cur len a acc = (acc ++ map (pair a) (seq cur (len - cur)), Nat.max cur len).
+Proof.
+  induction fuel as [|f IH]; intros cur len a acc H; cbn [shared_inner].
+  - replace (len - cur) with 0 by lia. rewrite Nat.max_l by lia. cbn [seq map]. rewrite app_nil_r. reflexivity.
+  - destruct (cur <? len) eqn:E.
+    + apply Nat.ltb_lt in E. rewrite IH by lia. rewrite !Nat.max_r by lia.
+      replace (len - cur) with (S (len - S cur)) by lia. cbn [seq map]. rewrite <- app_assoc. reflexivity.
+    + apply Nat.ltb_ge in E. replace (len - cur) with 0 by lia. rewrite Nat.max_l by lia. cbn [seq map].
+      rewrite app_nil_r. reflexivity.
+Qed.
+
+Theorem nested_ids_shared_spec len : nested_ids_shared len = map (pair 0) (seq 0 len).
+Proof.
+  unfold nested_ids_shared. destruct len as [|m]; [reflexivity|].
+  cbn [shared_outer]. replace (0 <? S m) with true by reflexivity.
+  rewrite shared_inner_spec by lia. rewrite Nat.sub_0_r, Nat.max_0_l. simpl app.
+  destruct m as [|m']; cbn [shared_outer]; rewrite Nat.ltb_irrefl; reflexivity.
+Qed.
+
+Theorem shared_cursor_refuted len : 2 <= len -> nested_ids_shared len <> nested_ids len.
+Proof.
+  intros H E. apply (f_equal (@length _)) in E.
+  rewrite nested_ids_shared_spec, nested_ids_prod, map_length, prod_length, seq_length in E. nia.
+Qed.
+
+(* ---- any interleaving of next() calls *)
+Definition IterAt (W : store) (t i c len : nat) : Prop :=
+  nth_error (iters W) t = Some (i, c) /\ exists e, nth_error (enss W) i = Some e /\ nc e = len.
+
+Lemma nth_error_app_l {A} (l l' : list A) i x : nth_error l i = Some x -> nth_error (l ++ l') i = Some x.
+Proof. intros H. rewrite nth_error_app1; auto. apply nth_error_Some. congruence. Qed.
+
+Lemma IterAt_ens_fun W o t i c len i' f e e' :
+  IterAt W t i c len -> resizing o = false -> ens_fun W o = Some (i', f) -> nth_error (enss W) i' = Some e ->
+  f e = Some e' -> IterAt (set_ens W i' e') t i c len.
+Proof.
+  intros [Ht (e0 & He0 & Hn)] Hr Ho He Hf. split; [exact Ht|]. unfold set_ens; simpl.
+  destruct (Nat.eq_dec i i') as [->|Hne].
+  - exists e'. split.
+    + apply nth_error_set_nth_eq. apply nth_error_Some. congruence.
+    + pose proof (ens_fun_frame W o i' f e e' Ho Hf) as [_ F]. rewrite F by auto. congruence.
+  - exists e0. split; auto. rewrite nth_error_set_nth_neq; auto.
+Qed.
+
+Lemma iter_step W o W' w t i c len : IterAt W t i c len -> resizing o = false -> step W o = Ok W' w ->
+  (is_next t o = true /\ ((c < len /\ w = OYield (Some c) /\ IterAt W' t i (S c) len) \/
+                          (len <= c /\ w = OYield None /\ IterAt W' t i c len)))
+  \/ (is_next t o = false /\ IterAt W' t i c len /\ (forall t', o = IterNext t' -> t' <> t)).
+Proof.
+  intros HI Hr H. pose proof HI as [Ht (e0 & He0 & Hn)]. apply step_ok_inv in H.
+  destruct H as [e -> _ Hs | i0 -> _ -> _ | t' i0 c0 e -> Ht' He Hc -> -> | t' i0 c0 e -> Ht' He Hc -> -> | i0 f e e' Ho He Hf -> _ | i0 f e Hn0 Ho He Hf ->].
+  - right. assert (En : is_next t o = false) by (destruct Hs; subst; reflexivity).
+    split; [exact En|]. split.
+    + split; [exact Ht|]. exists e0. split; auto. unfold push_ens; simpl. apply nth_error_app_l; auto.
+    + intros t' ->. destruct Hs; discriminate.
+  - right. split; [reflexivity|]. split.
+    + split; simpl; [apply nth_error_app_l; auto|]. exists e0; auto.
+    + intros t' E; discriminate.
+  - simpl. destruct (t' =? t) eqn:Et.
+    + apply Nat.eqb_eq in Et; subst t'. left. split; auto. left.
+      rewrite Ht in Ht'. inversion Ht'; subst i0 c0. rewrite He0 in He. inversion He; subst e.
+      split; [congruence|]. split; auto. split; simpl.
+      * apply nth_error_set_nth_eq. apply nth_error_Some. congruence.
+      * exists e0; auto.
+    + apply Nat.eqb_neq in Et. right. split; auto. split.
+      * split; simpl; [rewrite nth_error_set_nth_neq; auto|]. exists e0; auto.
+      * intros t'' E. inversion E; subst; auto.
+  - simpl. destruct (t' =? t) eqn:Et.
+    + apply Nat.eqb_eq in Et; subst t'. left. split; auto. right.
+      rewrite Ht in Ht'. inversion Ht'; subst i0 c0. rewrite He0 in He. inversion He; subst e.
+      split; [congruence|]. auto.
+    + apply Nat.eqb_neq in Et. right. split; auto. split; auto. intros t'' E. inversion E; subst; auto.
+  - right. assert (En : is_next t o = false) by (destruct o; try reflexivity; discriminate).
+    split; [exact En|]. split.
+    + eapply IterAt_ens_fun; eauto.
+    + intros t' ->. discriminate.
+  - right. assert (En : is_next t o = false) by (destruct o; try reflexivity; discriminate).
+    split; [exact En|]. split; auto. intros t' ->. discriminate.
+Qed.
+
+Lemma iter_next_not_err W t i c len : IterAt W t i c len -> step W (IterNext t) <> Err.
+Proof.
+  intros [Ht (e & He & _)]. cbn [step]. rewrite Ht, He. destruct (c <? nc e); discriminate.
+Qed.
+
+Definition count_next (t : nat) (h : list op) : nat := length (filter (is_next t) h).
+Definition no_resize (h : list op) : Prop := Forall (fun o => resizing o = false) h.
+
+Lemma yield_of_other t o w : (forall t', o = IterNext t' -> t' <> t) ->
+  match o, w with
+  | IterNext t', OYield (Some k) => if t' =? t then [k] else []
+  | _, _ => []
+  end = [].
+Proof.
+  intros H. destruct o; try reflexivity. destruct w; try reflexivity. destruct k; try reflexivity.
+  destruct (t0 =? t) eqn:E; auto. apply Nat.eqb_eq in E. exfalso. eapply H; eauto.
+Qed.
+
+(* an iterator standing at cursor c over an ensemble of `len` conformers: whatever else happens in between
+   (other iterators advancing, writes, transforms, new ensembles, dumps -- anything that does not resize), its
+   k-th next() from now on yields c + k, until len is reached, and then it stops *)
+Theorem iter_interleaved h : forall W Wf t i c len,
+  IterAt W t i c len -> no_resize h -> run W h = Some Wf ->
+  iter_yields t W h = firstn (count_next t h) (seq c (len - c)).
+Proof.
+  induction h as [|o r IH]; intros W Wf t i c len HI Hn Hrun.
+  - reflexivity.
+  - inversion Hn as [|? ? Ho Hr]; subst. cbn [iter_yields run] in *. unfold count_next. cbn [filter].
+    destruct (step W o) as [W1 w| |] eqn:E; try discriminate.
+    + destruct (iter_step W o W1 w t i c len HI Ho E) as [[En [(Hc & -> & HI') | (Hc & -> & HI')]] | (En & HI' & Hoth)].
+      * rewrite En. destruct o; try discriminate. simpl in En. rewrite En. cbn [length].
+        rewrite (IH W1 Wf t i (S c) len HI' Hr Hrun). fold (count_next t r).
+        replace (len - c) with (S (len - S c)) by lia. reflexivity.
+      * rewrite En. destruct o; try discriminate. cbn [length app].
+        rewrite (IH W1 Wf t i c len HI' Hr Hrun). fold (count_next t r).
+        replace (len - c) with 0 by lia. simpl. destruct (count_next t r); reflexivity.
+      * rewrite En. rewrite (yield_of_other t o w Hoth). simpl app.
+        apply (IH W1 Wf t i c len HI' Hr Hrun).
+    + assert (En : is_next t o = false).
+      { destruct (is_next t o) eqn:En; auto. destruct o; try discriminate. simpl in En. apply Nat.eqb_eq in En; subst.
+        exfalso. eapply iter_next_not_err; eauto. }
+      rewrite En. apply (IH W Wf t i c len HI Hr Hrun).
+Qed.
+
+(* a FRESH iterator (iter(ens)): every conformer exactly once, in order *)
+Theorem iter_fresh W i e h Wf :
+  nth_error (enss W) i = Some e -> no_resize h ->
+  run W (IterNew i :: h) = Some Wf ->
+  let t := length (iters W) in
+  iter_yields t W (IterNew i :: h) = firstn (count_next t h) (seq 0 (nc e)) /\
+  (nc e <= count_next t h -> iter_yields t W (IterNew i :: h) = seq 0 (nc e)).
+Proof.
+  intros He Hn Hrun t. cbn [iter_yields run] in *. cbn [step] in *. rewrite He in *. simpl app.
+  assert (HI : IterAt (mkStore (enss W) (iters W ++ [(i, 0)])) t i 0 (nc e)).
+  { split; simpl.
+    - unfold t. rewrite nth_error_app2 by lia. rewrite Nat.sub_diag. reflexivity.
+    - exists e; auto. }
+  pose proof (iter_interleaved h _ Wf t i 0 (nc e) HI Hn Hrun) as Y. rewrite Nat.sub_0_r in Y.
+  split; [exact Y|]. intros Hc. rewrite Y. apply firstn_all2. rewrite seq_length. exact Hc.
+Qed.
+
+(* ------------------------------------------------------------------ a rectangular ensemble can be written and stored *)
+Lemma zip_rows_rect cs : forall qs, length qs = length cs -> zip_rows cs qs = Some (zipw (@combine row3 num) cs qs).
+Proof.
+  induction cs as [|c cs IH]; intros [|q qs] H; simpl in *; try discriminate; auto.
+  rewrite IH by lia. reflexivity.
+Qed.
+
+Theorem dump_rect e : Rect e ->
+  dump_mol2 e = Some (zipw (@combine row3 num) (coords e) (charges e)) /\ length (dump_xyz e) = nc e.
+Proof. intros (H1 & _). split; [|reflexivity]. apply zip_rows_rect; auto. Qed.
+
+(* every conformer of a rectangular ensemble is a FULL view: na coordinate rows and na charges *)
+Theorem conf_view_full e k j : Rect e -> py_index (nc e) k = Some j ->
+  exists c q, c_get_coords k e = Some c /\ c_get_charges k e = Some q /\ length c = na e /\ length q = na e.
+Proof.
+  intros (H1 & _ & H3 & H4) Hk. unfold nc in Hk. pose proof (py_index_lt _ _ _ Hk) as Hj.
+  destruct (nth_error (coords e) j) as [c|] eqn:Ec; [|apply nth_error_None in Ec; lia].
+  destruct (nth_error (charges e) j) as [q|] eqn:Eq; [|apply nth_error_None in Eq; lia].
+  exists c, q. unfold c_get_coords, c_get_charges, get_row. rewrite H1, Hk. repeat split; auto.
+  - rewrite Forall_forall in H3. apply H3. eapply nth_error_In; eauto.
+  - rewrite Forall_forall in H4. apply H4. eapply nth_error_In; eauto.
+Qed.
+
+Lemma chunk_concat {A} a (rows : list (list A)) : Forall (fun r => length r = a) rows ->
+  chunk (length rows) a (concat rows) = rows /\ length (concat rows) = length rows * a.
+Proof.
+  induction 1 as [|r rows Hr _ [IH1 IH2]]; simpl; auto.
+  rewrite app_length, IH2, Hr. split; [|lia].
+  rewrite <- Hr at 1 3. rewrite firstn_app, firstn_all, Nat.sub_diag. simpl. rewrite app_nil_r.
+  rewrite skipn_app, skipn_all, Nat.sub_diag. simpl. rewrite IH1. reflexivity.
+Qed.
+
+Lemma set_all_coords_ok v e : length v = length (coords e) -> Forall (fun r => length r = na e) v ->
+  set_all_coords v e = Some (mkEns (na e) v (charges e) (weights e)).
+Proof. intros L F. unfold set_all_coords. replace (shape2 _ _ v) with true; auto. symmetry. apply shape2_spec; auto. Qed.
+Lemma set_all_charges_ok v e : length v = length (charges e) -> Forall (fun r => length r = na e) v ->
+  set_all_charges v e = Some (mkEns (na e) (coords e) v (weights e)).
+Proof. intros L F. unfold set_all_charges. replace (shape2 _ _ v) with true; auto. symmetry. apply shape2_spec; auto. Qed.
+
+(* molli.chem.io: what comes back is the ensemble that went in *)
+Theorem ser_roundtrip_id W e : Rect e -> ser_roundtrip W e = CSome e.
+Proof.
+  intros (H1 & H2 & H3 & H4). unfold ser_roundtrip, reshape, nc.
+  destruct (chunk_concat (na e) (coords e) H3) as [C1 C2]. destruct (chunk_concat (na e) (charges e) H4) as [Q1 Q2].
+  rewrite H1 in Q1, Q2.
+  rewrite C2, Q2, Nat.eqb_refl, C1, Q1.
+  unfold init. cbn [init_base opt_apply].
+  rewrite set_all_coords_ok; [|unfold alloc; simpl; rewrite repeat_length; reflexivity|exact H3].
+  cbn [na coords charges weights alloc].
+  rewrite set_all_charges_ok; [|simpl; rewrite repeat_length; auto|exact H4].
+  unfold set_all_weights. cbn [na coords charges weights]. rewrite repeat_length, H2, Nat.eqb_refl.
+  destruct e; reflexivity.
+Qed.
+
+(* ------------------------------------------------------------------ slices name conformers that exist *)
+Lemma adj_bounds len lower upper x : (0 <= len)%Z ->
+  (lower = 0 /\ upper = len)%Z \/ (lower = -1 /\ upper = len - 1)%Z ->
+  (lower <= adj len lower upper x <= upper)%Z.
+Proof. intros Hl H. unfold adj. destruct (x <? 0)%Z eqn:E; lia. Qed.
+
+Lemma py_range_bounds lo hi st x : st <> 0%Z -> In x (py_range lo hi st) ->
+  ((0 < st /\ lo <= x < hi) \/ (st < 0 /\ hi < x <= lo))%Z.
+Proof.
+  unfold py_range, range_len. intros Hne H. apply in_map_iff in H as (j & <- & Hj). apply in_seq in Hj. simpl in Hj.
+  destruct (0 <? st)%Z eqn:Es.
+  - left. assert (0 < st)%Z by lia. destruct (lo <? hi)%Z eqn:E; [|simpl in Hj; lia].
+    assert (Hq : (st * ((hi - lo - 1) / st) <= hi - lo - 1)%Z) by (apply Z.mul_div_le; lia).
+    assert (0 <= (hi - lo - 1) / st)%Z by (apply Z.div_pos; lia).
+    assert (Z.of_nat j <= (hi - lo - 1) / st)%Z by lia. nia.
+  - destruct (hi <? lo)%Z eqn:E; [|simpl in Hj; lia].
+    right. assert (0 < - st)%Z by lia.
+    assert (Hq : (- st * ((lo - hi - 1) / - st) <= lo - hi - 1)%Z) by (apply Z.mul_div_le; lia).
+    assert (0 <= (lo - hi - 1) / - st)%Z by (apply Z.div_pos; lia).
+    assert (Z.of_nat j <= (lo - hi - 1) / - st)%Z by lia. nia.
+Qed.
+
+Theorem slice_ids_in_range len a b c ids x : slice_ids len a b c = Some ids -> In x ids ->
+  (0 <= x < Z.of_nat len)%Z.
+Proof.
+  unfold slice_ids, slice_indices. set (st := match c with Some s => s | None => 1%Z end).
+  destruct (st =? 0)%Z eqn:E0; [discriminate|]. intros H Hx. inversion H; subst ids; clear H.
+  apply py_range_bounds in Hx; [|lia].
+  assert (Hl : (0 <= Z.of_nat len)%Z) by lia.
+  destruct (st <? 0)%Z eqn:En.
+  - pose proof (fun x => adj_bounds (Z.of_nat len) (-1) (Z.of_nat len - 1) x Hl (or_intror (conj eq_refl eq_refl))) as B.
+    destruct a as [a0|], b as [b0|]; try pose proof (B a0); try pose proof (B b0); lia.
+  - pose proof (fun x => adj_bounds (Z.of_nat len) 0 (Z.of_nat len) x Hl (or_introl (conj eq_refl eq_refl))) as B.
+    destruct a as [a0|], b as [b0|]; try pose proof (B a0); try pose proof (B b0); lia.
 Qed.
